@@ -225,10 +225,14 @@ def merge(results):
     m = {'evaluations': 0, 'nontrivial': set(), 'labels': {}, 'samples': [],
          'failures': {}, 'excluded_known': {}, 'exhaustive': [], 'notes': [],
          'tasks': {}}
+    m['harness_errors'] = []
     for r in results:
         if 'harness_error' in r:
-            raise HarnessError('task %s:\n%s' % (r['task'],
-                                                 r['harness_error']))
+            # decided in main(): inconclusive (exit 2) unless another task
+            # found a violation that reproduces in a fresh process
+            m['harness_errors'].append('task %s:\n%s' % (
+                r['task'], r['harness_error']))
+            continue
         m['evaluations'] += r['evaluations']
         m['nontrivial'] |= r['nontrivial']
         for k, v in r['labels'].items():
@@ -409,6 +413,26 @@ def main(argv):
         m = merge(results)
         wall = time.monotonic() - t0
         viol = len(m['failures'])
+        if m['harness_errors']:
+            # A task of the harness broke down.  That alone is inconclusive
+            # (exit 2).  Violations other tasks found are still reported if
+            # at least one of them reproduces from its replay file in a
+            # fresh process - a harness break-down elsewhere cannot have
+            # produced that.
+            confirmed = False
+            for k, (sig, f) in enumerate(sorted(m['failures'].items())):
+                if standalone(pid, write_replay(f), k) is True:
+                    confirmed = True
+                    break
+            if not confirmed:
+                raise HarnessError(m['harness_errors'][0])
+            for h in m['harness_errors']:
+                print('HARNESS-ERROR %s (other tasks report violations '
+                      'that reproduce standalone): %s' % (pid, h),
+                      file=sys.stderr)
+            m['notes'].append('%d task(s) ended in a harness error; their '
+                              'cases are not counted'
+                              % len(m['harness_errors']))
         write_evidence(pid, tier, seed, mod, m, wall, viol)
         kf = {f.get('id', f.get('what')): f
               for f in core.known_findings().get('findings', [])
